@@ -131,6 +131,10 @@ class Poly:
             a, b = self.poly(n['inner'][1], depth + 1), self.poly(n['inner'][2], depth + 1)
             if a == b:
                 return a
+            # flag ? a : b with a boolean flag and constants is b + (a - b) * flag
+            c0 = _strip(n['inner'][0])
+            if list(a) in ([], [()]) and list(b) in ([], [()]) and (dtype(c0) or '').replace('const ', '') == 'bool' and c0.get('kind') in ('MemberExpr', 'DeclRefExpr'):
+                return p_add(b, p_mul(p_const(a.get((), 0) - b.get((), 0)), p_atom(canon(c0))))
         if k == 'DeclRefExpr':
             init = self.single(ref_decl(n))
             if init is not None and int_type_info(dtype(n) or '') is not None:
